@@ -605,6 +605,7 @@ def rate_family():
         ("const", n("1.5")), ("y-only", L.bin_("*", n("2"), y)),
         ("exp(-x*x)", L.call("exp", L.neg(L.bin_("*", x, x)))), ("x*exp(i)", L.bin_("*", x, L.call("exp", i))),
         ("stiff", L.bin_("*", L.neg(n("1000")), L.bin_("-", x, p))),
+        ("p-abs(x)", L.bin_("-", p, L.call("abs", x))), ("abs(x-1)+y", L.bin_("+", L.call("abs", L.bin_("-", x, n("1"))), y)), ("1-2*abs(x)", L.bin_("-", n("1"), L.bin_("*", n("2"), L.call("abs", x)))),
         # derivatives that are identically zero (every way of writing zero), and a state that only occurs in a condition
         ("zero", n("0")), ("zero-float", n("0.0")), ("p-p", L.bin_("-", p, p)), ("0*x", L.bin_("*", n("0"), x)), ("x*0+y-y", L.bin_("-", L.bin_("+", L.bin_("*", x, n("0")), y), y)),
         ("only-in-condition", L.cond(L.rel("Gt", x, p), L.neg(y), y)), ("only-in-condition-2", L.cond(("and", L.rel("Lt", x, n("1")), L.rel("Gt", y, n("0"))), n("1.5"), p)),
@@ -644,6 +645,9 @@ def degenerate_specs():
         ("deg|intermediate-one-and-minus-one", spec([("x", n("1.0"))], [("p", n("0.5"))], [("one", n("1")), ("mone", L.neg(n("1"))), ("dx_dt", L.bin_("+", L.bin_("*", v("one"), v("p")), L.bin_("*", v("mone"), v("x"))))])),
         ("deg|six-states", spec([(f"s{i}", n(str(i + 0.5))) for i in range(6)], [("p", n("0.5"))],
                                 [(f"ds{i}_dt", L.bin_("-", L.bin_("*", n(str(i + 1)), v(f"s{(i + 1) % 6}")), L.bin_("*", v("p"), v(f"s{i}")))) for i in range(6)])),
+        ("deg|twelve-states", spec([(f"s{i}", n(str(i + 0.5))) for i in range(12)], [("p", n("0.5"))],
+                                   [(f"m{i}", L.bin_("*", n(str(i + 1)), v(f"s{i}"))) for i in range(12)] +
+                                   [(f"ds{i}_dt", L.bin_("-", v(f"m{(i + 5) % 12}"), L.bin_("*", v("p"), v(f"s{i}")))) for i in range(12)])),
         ("deg|names-by-case", spec([("X", n("1.0")), ("x", n("2.0"))], [("g_K", n("0.5")), ("G_K", n("1.5"))],
                                    [("i_K", L.bin_("*", v("g_K"), v("x"))), ("I_K", L.bin_("*", v("G_K"), v("X"))), ("dX_dt", L.bin_("-", v("i_K"), v("X"))), ("dx_dt", L.bin_("+", v("I_K"), v("x")))])),
         # names that are prefixes of each other: "sorted by state name" and "sorted by derivative name" are different orders
